@@ -471,15 +471,33 @@ Proof.
 Qed.
 
 (* ---- the floating-point outcome of np.reciprocal(np.sqrt(d)) ------------------------------ *)
+(* Over the reals the nan test (d == d fails) and the sign-of-zero test (1 / d < 0 at d = 0;
+   Coq's 1 / 0 is 0) never fire: the reading is the three-class one.  (Statement unchanged by
+   the repair of recip_sqrt_outcome, which added these two tests for binary64.) *)
 Lemma recip_sqrt_outcome_R d :
   (d < 0 -> recip_sqrt_outcome NumR d = NaN) /\
   (d = 0 -> recip_sqrt_outcome NumR d = PlusInf) /\
   (0 < d -> recip_sqrt_outcome NumR d = Finite (1 / sqrt d)).
 Proof.
-  unfold recip_sqrt_outcome. cbn [NumR nltb neqb n0 n1 ndiv nsqrt]. repeat split; intros H.
+  unfold recip_sqrt_outcome. cbn [NumR nltb neqb n0 n1 ndiv nsqrt].
+  rewrite (Raux.Req_bool_true d d) by reflexivity. cbn [negb].
+  repeat split; intros H.
   - rewrite Raux.Rlt_bool_true by exact H. reflexivity.
-  - rewrite Raux.Rlt_bool_false by lra. rewrite Raux.Req_bool_true by exact H. reflexivity.
+  - rewrite Raux.Rlt_bool_false by lra. rewrite Raux.Req_bool_true by exact H.
+    rewrite H. unfold Rdiv. rewrite Rinv_0, Rmult_0_r. rewrite Raux.Rlt_bool_false by lra. reflexivity.
   - rewrite Raux.Rlt_bool_false by lra. rewrite Raux.Req_bool_false by lra. reflexivity.
+Qed.
+
+(* the two binary64-only classes are not real-number outcomes: MinusInf is never the answer, and
+   NaN is the answer exactly for a negative virtual distance *)
+Lemma recip_sqrt_outcome_R_classes d :
+  recip_sqrt_outcome NumR d <> MinusInf /\ (recip_sqrt_outcome NumR d = NaN <-> d < 0).
+Proof.
+  destruct (recip_sqrt_outcome_R d) as (Hn & Hz & Hp).
+  destruct (Rtotal_order d 0) as [H | [H | H]].
+  - rewrite (Hn H). split; [discriminate | split; [intros _; exact H | reflexivity]].
+  - rewrite (Hz H). split; [discriminate | split; [discriminate | intros H'; lra]].
+  - rewrite (Hp H). split; [discriminate | split; [discriminate | intros H'; lra]].
 Qed.
 
 Lemma outcome_regular vel r1 rest thetas :
